@@ -52,6 +52,9 @@ type GenSpec struct {
 	// Absent lists optional genesis fields left out ("bm", "sr", "maxbody", "nextnonce", "threshold"):
 	// initialisation then installs the defaults (paused, paused, 8000, 0, 1).
 	Absent []string `json:"absent,omitempty"`
+	// NoRole lists role slots (1 attester manager, 2 pauser, 3 token controller) whose genesis string is empty:
+	// validation accepts that, and nobody holds the role until the owner appoints someone.
+	NoRole []int `json:"no_role,omitempty"`
 }
 
 func (g *GenSpec) absent(f string) bool {
@@ -67,6 +70,16 @@ func (g *GenSpec) absent(f string) bool {
 func (g *GenSpec) ModuleGenesis() *types.GenesisState {
 	gs := types.DefaultGenesis()
 	gs.Owner, gs.AttesterManager, gs.Pauser, gs.TokenController = Acct(g.Roles[0]), Acct(g.Roles[1]), Acct(g.Roles[2]), Acct(g.Roles[3])
+	for _, slot := range g.NoRole {
+		switch slot {
+		case 1:
+			gs.AttesterManager = ""
+		case 2:
+			gs.Pauser = ""
+		case 3:
+			gs.TokenController = ""
+		}
+	}
 	for _, a := range g.Attesters {
 		gs.AttesterList = append(gs.AttesterList, types.Attester{Attester: a})
 	}
@@ -170,6 +183,11 @@ func NewModel(g *GenSpec) *Model {
 	}
 	for i := 0; i < 4; i++ {
 		m.Roles[i] = Acct(g.Roles[i])
+	}
+	for _, slot := range g.NoRole {
+		if slot >= 1 && slot <= 3 {
+			m.Roles[slot] = ""
+		}
 	}
 	for _, a := range g.Attesters {
 		m.Atts[a] = true
